@@ -397,20 +397,30 @@ impl PreferenceManager {
 
     fn set_speech_files(&mut self, language_dir: &Path, language: &str, new_speech_style: Option<&str>) -> Result<()> {
         PreferenceManager::unzip_files(language_dir, language, Some("en"))?;
-        self.intent = PreferenceManager::find_file(language_dir, language, Some("en"), "intent.yaml")?;
-        self.overview = PreferenceManager::find_file(language_dir, language, Some("en"), "overview.yaml")?;
-        self.navigation = PreferenceManager::find_file(language_dir, language, Some("en"), "navigate.yaml")?;
+        // find all the files before changing anything so that a failure leaves the old (consistent) set of files in place
+        let intent = PreferenceManager::find_file(language_dir, language, Some("en"), "intent.yaml")?;
+        let overview = PreferenceManager::find_file(language_dir, language, Some("en"), "overview.yaml")?;
+        let navigation = PreferenceManager::find_file(language_dir, language, Some("en"), "navigate.yaml")?;
 
-        self.speech_unicode = PreferenceManager::find_file(language_dir, language, Some("en"), "unicode.yaml")?;
-        self.speech_unicode_full = PreferenceManager::find_file(language_dir, language, Some("en"), "unicode-full.yaml")?;
+        let speech_unicode = PreferenceManager::find_file(language_dir, language, Some("en"), "unicode.yaml")?;
+        let speech_unicode_full = PreferenceManager::find_file(language_dir, language, Some("en"), "unicode-full.yaml")?;
 
-        self.speech_defs = PreferenceManager::find_file(language_dir, language, Some("en"), "definitions.yaml")?;
+        let speech_defs = PreferenceManager::find_file(language_dir, language, Some("en"), "definitions.yaml")?;
 
-        match new_speech_style {
-            Some(style_name) => self.set_style_file(language_dir, language, style_name)?,
+        let style_file_name = match new_speech_style {
+            Some(style_name) => style_name.to_string(),
             // use the old style name if one isn't given
-            None => self.set_style_file(language_dir, language, &self.pref_to_string("SpeechStyle"))?,
-        }
+            None => self.pref_to_string("SpeechStyle"),
+        } + "_Rules.yaml";
+        let speech = PreferenceManager::find_file(language_dir, language, Some("en"), &style_file_name)?;
+
+        self.intent = intent;
+        self.overview = overview;
+        self.navigation = navigation;
+        self.speech_unicode = speech_unicode;
+        self.speech_unicode_full = speech_unicode_full;
+        self.speech_defs = speech_defs;
+        self.speech = speech;
         return Ok( () );
     }
 
@@ -426,12 +436,18 @@ impl PreferenceManager {
 
         let braille_file = braille_code_name.to_string() + "_Rules.yaml";
 
-        self.braille = PreferenceManager::find_file(braille_rules_dir, braille_code_name, Some("UEB"), &(braille_file))?;
+        // find all the files before changing anything so that a failure leaves the old (consistent) set of files in place
+        let braille = PreferenceManager::find_file(braille_rules_dir, braille_code_name, Some("UEB"), &(braille_file))?;
 
-        self.braille_unicode = PreferenceManager::find_file(braille_rules_dir, braille_code_name, Some("UEB"), "unicode.yaml")?;
-        self.braille_unicode_full = PreferenceManager::find_file(braille_rules_dir, braille_code_name, Some("UEB"), "unicode-full.yaml")?;
+        let braille_unicode = PreferenceManager::find_file(braille_rules_dir, braille_code_name, Some("UEB"), "unicode.yaml")?;
+        let braille_unicode_full = PreferenceManager::find_file(braille_rules_dir, braille_code_name, Some("UEB"), "unicode-full.yaml")?;
 
-        self.braille_defs = PreferenceManager::find_file(braille_rules_dir, braille_code_name, Some("UEB"), "definitions.yaml")?;
+        let braille_defs = PreferenceManager::find_file(braille_rules_dir, braille_code_name, Some("UEB"), "definitions.yaml")?;
+
+        self.braille = braille;
+        self.braille_unicode = braille_unicode;
+        self.braille_unicode_full = braille_unicode_full;
+        self.braille_defs = braille_defs;
         return Ok( () );
     }
 
